@@ -20,7 +20,7 @@ RULE = (
 )
 ASSUMPTIONS = ["encoder vf/ref/cosem_enc.py and name table vf/ref/names.py are the specification side", "currents compared with 2^-50 relative tolerance (see module docstring)"]
 WATCHDOG_S = {"quick": 900, "thorough": 7200}
-N = {"quick": 200, "thorough": 9500}
+N = {"quick": 600, "thorough": 9500}
 
 
 def plan(tier, seed):
